@@ -464,6 +464,44 @@ def check_solve(u, problem, res, stats, want):
                 viol.append({"prop": "C07", "what": "first-ranked candidates %s are mutually compatible but solve returned %s" % (sorted(pref), sorted(sol))})
 
     # ---- certificates on the clause database ----------------------------------------------------------------
+        # ---- C14, later soft requirements: x was skipped although (i) the hard problem is conflict-free and the joint
+        # first-ranked closure of the soft solvables accepted before x and of x itself is consistent (the property's
+        # antecedent, taken relative to what was accepted earlier) AND (ii) the solution that was actually returned can be
+        # extended with x (so the skip cannot be blamed on choices the solver legitimately made for earlier ones)
+        if soft and len(soft) >= 2 and preferred_selection(sp, hard) is not None:
+            for k, x in enumerate(soft):
+                if k == 0 or x in sol or x not in sp.X:
+                    continue
+                before = [y for y in soft[:k] if y in sol]
+                joint = preferred_selection(sp, hard, extra=x, accepted=before)
+                if joint is None:
+                    continue
+                accepted = tuple(y for y in soft if y in sol)
+                skipped_before = [y for y in soft[:k] if y not in sol and y in sp.X and y != x]
+                asg2 = [sp.X[i] for i in sol if i in sp.X] + [sp.X[x]] + [z3.Not(sp.X[y]) for y in skipped_before]
+                addable, _ = _check(stats, "soft-ext", [f for _, f in sp.full(hard, accepted)], asg2)
+                if addable:
+                    # role of the failing input (used as the finding key): an earlier accepted soft solvable that is only
+                    # installable through the lock/exclusion exemption, whose package the skipped one's closure mentions
+                    def lapsed(a):
+                        pk = sp.pk[sp.sv[a]["name"]]
+                        return a in pk["excluded"] or pk["locked"] not in (None, a)
+                    mentioned = set()
+                    for m in joint:
+                        d = sp.sv[m]["deps"]
+                        if d and (m == x or m not in sol):
+                            for r in d["req"]:
+                                mentioned |= set(sp.vs[v]["name"] for v in sp.req_vsets(r))
+                            mentioned |= set(sp.vs[v]["name"] for v in d["con"])
+                    poison = sorted(set(a for a in before if lapsed(a) and sp.sv[a]["name"] in mentioned))
+                    if poison:
+                        what = ("EXEMPTION LAPSES: soft solvable (requirement #K) skipped because its dependencies mention the package of an earlier accepted soft solvable "
+                                "that is excluded/locked out by its own package; fetching that package adds the exclusion/lock clause against the installed solvable")
+                        what += " [s%d skipped, exempt s%s, solution %s]" % (x, poison, sorted(sol))
+                    else:
+                        what = "soft solvable s%d (requirement #%d) was skipped although its first-ranked closure is consistent with the conflict-free hard solution and the soft solvables accepted before it %s, and the returned solution %s can be extended with it (z3)" % (x, k + 1, before, sorted(sol))
+                    viol.append({"prop": "C14", "what": what})
+                    break
         # ---- C14: a soft solvable whose preferred closure is compatible with the conflict-free hard solution is taken
         if soft:
             pref = preferred_selection(sp, hard)
@@ -485,7 +523,7 @@ def check_solve(u, problem, res, stats, want):
     return viol, tags
 
 
-def preferred_selection(sp, problem, extra=None):
+def preferred_selection(sp, problem, extra=None, accepted=()):
     """C07 antecedent: close the root requirements under 'take the first-ranked candidate'; return the selection if it
     is consistent and each requirement is met ONLY by its own first choice, else None."""
     sel, todo, reqs = set(), [], []
@@ -502,9 +540,10 @@ def preferred_selection(sp, problem, extra=None):
         return True
     if not take(problem["req"]):
         return None
-    if extra is not None and extra not in sel:
-        sel.add(extra)
-        todo.append(extra)
+    for e in list(accepted) + ([extra] if extra is not None else []):
+        if e not in sel:
+            sel.add(e)
+            todo.append(e)
     while todo:
         c = todo.pop()
         d = sp.sv[c]["deps"]
@@ -516,9 +555,10 @@ def preferred_selection(sp, problem, extra=None):
         if [c for c in sp.req_candidates(r) if c in sel] != [first] * len([c for c in sp.req_candidates(r) if c in sel]):
             return None
     s = z3.Solver()
-    # no exemption here: the lock/exclusion exemption of a directly named solvable is an allowance, not something the
-    # solver must grant (it does not when the package is also requested through a version set)
-    for _, f in sp.full(dict(problem, soft=[])):
+    # no exemption for `extra`: the lock/exclusion exemption of a directly named solvable is an allowance, not something the
+    # solver must grant (it does not when the package is also requested through a version set); soft solvables that WERE
+    # accepted earlier are taken as they are
+    for _, f in sp.full(dict(problem, soft=[]), exempt=tuple(accepted)):
         s.add(f)
     if s.check(*[sp.X[i] if i in sel else z3.Not(sp.X[i]) for i in sp.X]) != z3.sat:
         return None
